@@ -61,6 +61,8 @@ def tool_hash():
         for d in ("tool", "contracts"):
             for fn in sorted(os.listdir(os.path.join(VERIF, d))):
                 p = os.path.join(VERIF, d, fn)
+                if fn in ("selftest.py", "mkmeta.py", "try_seeds.sh", "confirm_seed.sh", "dev.py", "batch.sh", "vf.sh", "summ.py", "replay.py"):
+                    continue          # development helpers: they do not influence a verdict
                 if os.path.isfile(p) and not fn.endswith(".pyc"):
                     parts.append(fn)
                     parts.append(open(p, "rb").read())
@@ -363,7 +365,13 @@ def verify_unit(unit, gen_text, timeout=1500):
                 e["shard"] = i
                 res["errors"].append(e)
     ext = ((res.get("report") or {}).get("annotator") or {}).get("external") or []
-    if res["status"] == "ok" and ext:
+    rejected = res["status"] in ("front_end_error", "verus_failed")
+    if rejected:
+        # the verifier could not ingest the extracted text at all: nothing is proved for this unit; the
+        # bounded stand-in below is the only thing that can still decide (a failing input is a violation,
+        # no failing input leaves the unit undecided)
+        ext = ["<whole unit: the verifier front end rejected the extracted text>"]
+    if (res["status"] == "ok" and ext) or rejected:
         # bounded stand-in for the functions Verus cannot ingest (E8): exhaustive native run of the
         # real emitted parser over all short inputs.  Labelled bounded, never counted as proved.
         try:
